@@ -254,15 +254,24 @@ MapCps(cps) ==
 \* ---------------------------------------------------------------- validity
 XnPrefix == << 120, 110, 45, 45 >>
 
-\* RFC 5892 Appendix A.1 (ZWNJ) and A.2 (ZWJ)
-ContextJOk(lab) ==
+\* RFC 5892 Appendix A.1 (ZWNJ) and A.2 (ZWJ).
+\* loose = FALSE is the RFC as written: (Joining_Type:{L,D})(Joining_Type:T)*ZWNJ(Joining_Type:T)*(Joining_Type:{R,D}).
+\* loose = TRUE is a documented deviation used only to CLASSIFY a divergence of the implementation (known finding
+\* D19): "some L/D code point anywhere before and some R/D code point anywhere after the ZWNJ, and the ZWNJ neither
+\* first nor last in the label".  The deviation is never the expected value.
+ContextJOkX(lab, loose) ==
   \A i \in 1..Len(lab) :
     IF lab[i] = 8205 THEN i > 1 /\ Ccc(lab[i-1]) = 9
     ELSE IF lab[i] = 8204 THEN
       \/ i > 1 /\ Ccc(lab[i-1]) = 9
-      \/ /\ \E j \in 1..(i-1) : Jt(lab[j]) \in {"L", "D"} /\ \A k \in (j+1)..(i-1) : Jt(lab[k]) = "T"
-         /\ \E j \in (i+1)..Len(lab) : Jt(lab[j]) \in {"R", "D"} /\ \A k \in (i+1)..(j-1) : Jt(lab[k]) = "T"
+      \/ IF loose
+         THEN /\ i > 1 /\ i < Len(lab)
+              /\ \E j \in 1..(i-1) : Jt(lab[j]) \in {"L", "D"}
+              /\ \E j \in (i+1)..Len(lab) : Jt(lab[j]) \in {"R", "D"}
+         ELSE /\ \E j \in 1..(i-1) : Jt(lab[j]) \in {"L", "D"} /\ \A k \in (j+1)..(i-1) : Jt(lab[k]) = "T"
+              /\ \E j \in (i+1)..Len(lab) : Jt(lab[j]) \in {"R", "D"} /\ \A k \in (i+1)..(j-1) : Jt(lab[k]) = "T"
     ELSE TRUE
+ContextJOk(lab) == ContextJOkX(lab, FALSE)
 
 \* RFC 5893 section 2, the six conditions, for one label of a Bidi domain name
 BidiOk(lab) ==
@@ -284,18 +293,19 @@ BidiOk(lab) ==
 IsBidiLabel(lab) == \E i \in 1..Len(lab) : Bidi(lab[i]) \in {"R", "AL", "AN"}
 
 \* UTS #46 section 4.1 validity criteria (all but CheckBidi, which needs the whole domain)
-ValidLabel(lab) ==
+ValidLabelX(lab, loosej) ==
   \/ lab = <<>>
   \/ /\ NFC(lab) = lab                                              \* 1
      /\ ~StartsWith(lab, XnPrefix)                                  \* 4 (CheckHyphens = false)
      /\ ~HasByte(lab, 46)                                           \* 5
      /\ ~IsMark(lab[1])                                             \* 6
      /\ \A i \in 1..Len(lab) : Status(lab[i]) \in {"V", "D"}        \* 7
-     /\ ContextJOk(lab)                                             \* 8
+     /\ ContextJOkX(lab, loosej)                                    \* 8
+ValidLabel(lab) == ValidLabelX(lab, FALSE)
 
 \* ---------------------------------------------------------------- processing
 \* one label after Map, Normalize, Break: [err, unspec, u] ; u = the Unicode form
-ProcLabel(lab) ==
+ProcLabelX(lab, loosej) ==
   IF lab = <<>> THEN [err |-> FALSE, unspec |-> FALSE, u |-> lab]
   ELSE IF StartsWith(lab, XnPrefix) THEN
     IF \E i \in 1..Len(lab) : lab[i] >= 128 THEN [err |-> TRUE, unspec |-> FALSE, u |-> lab]
@@ -305,8 +315,9 @@ ProcLabel(lab) ==
       ELSE IF \E i \in 1..Len(d.s) : ~Known(d.s[i]) THEN [err |-> FALSE, unspec |-> TRUE, u |-> lab]
       ELSE IF NFCx(d.s).missing \/ (\E i \in 1..Len(NFCx(d.s).out) : ~Known(NFCx(d.s).out[i]))
         THEN [err |-> FALSE, unspec |-> TRUE, u |-> lab]
-      ELSE [err |-> ~ValidLabel(d.s), unspec |-> FALSE, u |-> d.s]
-  ELSE [err |-> ~ValidLabel(lab), unspec |-> FALSE, u |-> lab]
+      ELSE [err |-> ~ValidLabelX(d.s, loosej), unspec |-> FALSE, u |-> d.s]
+  ELSE [err |-> ~ValidLabelX(lab, loosej), unspec |-> FALSE, u |-> lab]
+ProcLabel(lab) == ProcLabelX(lab, FALSE)
 
 AceOf(u) == IF \A i \in 1..Len(u) : u[i] < 128 THEN u ELSE XnPrefix \o PunyEncode(u)
 
@@ -318,7 +329,7 @@ JoinDots(segs) == IF segs = <<>> THEN <<>>
 \* strict = FALSE is a documented deviation used only to CLASSIFY a divergence of the implementation
 \* (known finding D10): the Bidi rule applied only to labels that themselves contain an R / AL / AN
 \* character.  The deviation is never the expected value.
-ProcessX(cps, strict) ==
+ProcessX(cps, strict, loosej) ==
   LET m == MapCps(cps) IN
   IF \E i \in 1..Len(cps) : ~Known(cps[i]) THEN [ok |-> FALSE, unspec |-> TRUE, labels |-> <<>>]
   ELSE IF m.bad THEN [ok |-> FALSE, unspec |-> FALSE, labels |-> <<>>]
@@ -326,38 +337,38 @@ ProcessX(cps, strict) ==
     IF n.missing \/ (\E i \in 1..Len(n.out) : ~Known(n.out[i]))      \* e.g. a Hangul syllable computed arithmetically
       THEN [ok |-> FALSE, unspec |-> TRUE, labels |-> <<>>]
     ELSE LET labs == Split(n.out, 46)
-             pl == [i \in 1..Len(labs) |-> ProcLabel(labs[i])]
+             pl == [i \in 1..Len(labs) |-> ProcLabelX(labs[i], loosej)]
          IN IF \E i \in 1..Len(pl) : pl[i].unspec \/ ~PunyEncodable(pl[i].u)
               THEN [ok |-> FALSE, unspec |-> TRUE, labels |-> <<>>]
             ELSE LET bidiDomain == \E i \in 1..Len(pl) : IsBidiLabel(pl[i].u)
                      Checked(i) == IF strict THEN bidiDomain ELSE IsBidiLabel(pl[i].u)
                      bad == \E i \in 1..Len(pl) : pl[i].err \/ (Checked(i) /\ ~BidiOk(pl[i].u))
                  IN [ok |-> ~bad, unspec |-> FALSE, labels |-> [i \in 1..Len(pl) |-> pl[i].u]]
-Process(cps) == ProcessX(cps, TRUE)
+Process(cps) == ProcessX(cps, TRUE, FALSE)
 
 \* ---------------------------------------------------------------- interface
 InFragment(cps) == \A i \in 1..Len(cps) : Known(cps[i])
 
 \* ToASCII of a (not all-ASCII) domain given as code points
-FragToAsciiX(cps, strict) ==
-  LET p == ProcessX(cps, strict) IN
+FragToAsciiX(cps, strict, loosej) ==
+  LET p == ProcessX(cps, strict, loosej) IN
   IF p.unspec THEN [ok |-> FALSE, unspec |-> TRUE, s |-> <<>>]
   ELSE IF ~p.ok THEN [ok |-> FALSE, unspec |-> FALSE, s |-> <<>>]
   ELSE [ok |-> TRUE, unspec |-> FALSE,
         s |-> JoinDots([i \in 1..Len(p.labels) |-> AceOf(p.labels[i])])]
 
-FragToAscii(cps) == FragToAsciiX(cps, TRUE)
+FragToAscii(cps) == FragToAsciiX(cps, TRUE, FALSE)
 
 \* ToUnicode of an ASCII domain (bytes): an "xn--" label that this algorithm
 \* accepts is replaced by its decoded form, every other label is kept; never fails.
 \* [unspec, s] with s = UTF-8 bytes.
-FragToUnicodeX(ascii, strict) ==
+FragToUnicodeX(ascii, strict, loosej) ==
   LET labs == Split(LowerStr(ascii), 46)
-      pl == [i \in 1..Len(labs) |-> ProcLabel(labs[i])]
+      pl == [i \in 1..Len(labs) |-> ProcLabelX(labs[i], loosej)]
       bidiDomain == \E i \in 1..Len(pl) : ~pl[i].err /\ IsBidiLabel(pl[i].u)
       Checked(i) == IF strict THEN bidiDomain ELSE (~pl[i].err /\ IsBidiLabel(pl[i].u))
       outl == [i \in 1..Len(pl) |->
                 IF pl[i].err \/ (Checked(i) /\ ~BidiOk(pl[i].u)) THEN labs[i] ELSE Utf8Encode(pl[i].u)]
   IN [unspec |-> \E i \in 1..Len(pl) : pl[i].unspec, s |-> JoinDots(outl)]
-FragToUnicode(ascii) == FragToUnicodeX(ascii, TRUE)
+FragToUnicode(ascii) == FragToUnicodeX(ascii, TRUE, FALSE)
 =============================================================================
